@@ -18,6 +18,8 @@ MUTANTS = [
     ("C05", "src/aiortc/rtp.py", "            if len(extension_value) < pos + x_length:\n                raise ValueError(\"RTP one-byte", "            if len(extension_value) < pos:\n                raise ValueError(\"RTP one-byte"),
     ("C07", "src/aiortc/rtp.py", "while mantissa > 0x3FFFF:", "while mantissa > 0x7FFFF:"),
     ("C15", "src/aiortc/rtp.py", "while mantissa > 0x3FFFF:", "while mantissa > 0x7FFFF:"),
+    ("C05", "src/aiortc/rtp.py", "        if len(data) < 4 * count:", "        if len(data) < 2 * count:"),
+    ("C07", "src/aiortc/rtp.py", "        fci = data[8:]", "        fci = data[9:]"),
     ("C17", "src/aiortc/utils.py", "half_mod = 0x8000", "half_mod = 0x7FFF"),
 ]
 
